@@ -208,7 +208,14 @@ def allOK : List (Except Err Bool) → Except Err Bool
       | .ok r => .ok (b && r)
       | .error x => .error x
 
-/-- `is_linear_expression(expr, args)` on the integrals of `expr` -/
+/-- `is_linear_expression(expr, args)` on the integrals of `expr`.  The code substitutes in the
+    whole `IntAdd` and compares `(a - b).expand() == 0`; integrals over different regions stay
+    different terms of that difference (sympde merges only integrals over the SAME region), so the
+    comparison holds iff it holds region by region: one verdict per integral, conjunction over the
+    integrals (`isLinear_true_iff` in Lemmas/LinearSum.lean) — the integrands are never added up
+    across regions.  Inside one integrand the comparison is made on the WHOLE integrand after
+    expansion (`RingEq.ringEq` normalises powers and products of sums), not summand by summand:
+    `(v+f)**2 - v**2 - f**2` is accepted. -/
 def isLinear (d : Nat) (args : List E) (ints : List (String × E)) : Except Err Bool :=
   match allOK (ints.map (fun p => additive d args p.2)) with
   | .error x => .error x
